@@ -201,9 +201,14 @@ class Machine:
         elif k < 0.9:
             cs = [r.choice(live) for _ in range(r.randint(0, 3))]
             n, d, kids = zoo.Tup(tuple(cs)), "Tup", cs
-        else:
+        elif k < 0.95:
             c = r.choice(live) if r.random() < 0.7 else None
             n, d, kids = zoo.Opt(c), "Opt", ([c] if c is not None else [])
+        else:
+            # a child field typed as a union of unrelated node classes, holding a non-first member when possible
+            cands = [x for x in live if type(x) is zoo.Bin] or [x for x in live if type(x) is zoo.Leaf]
+            c = r.choice(cands) if cands else None
+            n, d, kids = zoo.UnionKid(c), "UnionKid", ([c] if c is not None else [])
         op = [A("construct"), v, type(n).__name__, [c.__name__ for c in type(n).__mro__],
               [A("kids")] + [self.tok(c) for c in kids], self._fresh_sexp()]
         self.vars[v] = n
@@ -430,7 +435,9 @@ class Machine:
         d, st, cls, tx = self.rng.choice(self.dicts)
         v = self.rng.randrange(self.NVARS)
         self.fresh = []
-        n = cls.as_obj(d)
+        # the entry point may be the node's own class, a base class or an unrelated sibling class
+        via = self.rng.choice([cls, cls, zoo.Expr, ASTNode, zoo.Leaf, zoo.Tup])
+        n = via.as_obj(d)
         op = [A("asobj"), v, st, self._fresh_sexp()]
         self.vars[v] = n
         t = self.tok(n)
